@@ -50,7 +50,9 @@ def run_scripted(case):
         except TIMEOUT:
             out['init'] = 'TIMEOUT'; return out
         for cmd in case['cmds']:
-            text = '\n'.join('line%d' % k for k in range(cmd['lines']))
+            seps = cmd.get('seps') or ['\n'] * (cmd['lines'] - 1)
+            text = 'line0' + ''.join(sep + 'line%d' % (k + 1) for k, sep in enumerate(seps))
+            s0 = len(child.sent)
             k0 = len(child.kills)
             try:
                 v = w.run_command(text, timeout=5)
@@ -61,6 +63,10 @@ def run_scripted(case):
                 out['results'].append(['EOF', child.before]); break
             except TIMEOUT:
                 out['results'].append(['TIMEOUT', child.before]); break
+            # one sendline per line of the command, whatever line separator the caller used
+            want_sent = ['line%d\n' % k for k in range(cmd['lines'])]
+            if out['results'][-1][0] == 'value' and child.sent[s0:] != want_sent:
+                out['results'][-1] = ['value', out['results'][-1][1], 'sent %r' % (child.sent[s0:],)]
         out['pending'] = child.before if out['results'] and out['results'][-1][0] in ('TIMEOUT',) else child.buffer
         out['sent'] = child.sent
         return out
@@ -159,7 +165,8 @@ def rand_case(rng, clean=True):
         lines = rng.choice([1, 1, 1, 2, 3])
         incomplete = rng.random() < 0.2
         segs = [mk(rng.random() < 0.8) for _ in range(lines - 1)] + [mk(incomplete)]
-        cmds.append(dict(lines=lines, segs=segs, sync=(mk(False) if incomplete else None)))
+        cmds.append(dict(lines=lines, segs=segs, sync=(mk(False) if incomplete else None),
+                         seps=[rng.choice(['\n', '\n', '\r\n', '\r', '\x0c', '\u2028']) for _ in range(lines - 1)]))
     case = dict(prompt=prompt, cont=cont, init=mk(False), cmds=cmds)
     if rng.random() < 0.15:
         case['tail'] = rng.choice([['E'], ['T']])
@@ -187,6 +194,8 @@ def bash_family(rng, k):
         ('if true; then\necho a%s\nfi' % word, 'a%s\r\n' % word),
         ('echo "%s' % word, ValueError),
         ('echo one; echo two', 'one\r\ntwo\r\n'),
+        ('echo cr%s\r' % word, 'cr%s\r\n' % word),                      # str.splitlines(): a bare CR ends a line
+        ('echo a%s\recho b%s' % (word, word), 'a%s\r\nb%s\r\n' % (word, word)),
         ('echo %s\necho second\nprintf third' % word, '%s\r\nsecond\r\nthird' % word),      # every line answers with output of its own
     ]
     return rng.choice(fam)
@@ -203,6 +212,7 @@ def py_family(rng, k):
         ("print('x' * %d)" % n, 'x' * n + '\r\n'),
         ('for i in range(3):', ValueError),
         ('%d + 1' % k, '%d\r\n' % (k + 1)),
+        ("print('cr%s')\r" % word, 'cr%s\r\n' % word),
         ("print('%s')\nprint('second')" % word, '%s\r\nsecond\r\n' % word),
     ]
     return rng.choice(fam)
